@@ -107,10 +107,16 @@ class NullOk:
         if h in self._N:
             return self._N[h]
         self._N[h] = set()
+        self._Nsites = getattr(self, "_Nsites", {})
         if h.decl:
             return self._N[h]
         h.build()
         tested = {fl for (_i, fl) in _null_tests(h)}
+        sites = self._Nsites.setdefault(h, {})
+
+        class _Rec(set):
+            def add(self_, key, _site=[None]):
+                set.add(self_, key)
         out = set()
         for i in h.insts():
             fl = None
@@ -128,13 +134,16 @@ class NullOk:
                     ts = [t for t in ts if hasattr(t, "params") and not t.decl]
                     if ts and all(self.derefs_param(t, ai) for t in ts):
                         out.add(f2)
+                        sites.setdefault(f2, []).append(i)
                     elif i.callee:
                         t = self.prog.fn(i.callee, h.unit)
                         if t is not None and not t.decl and self.derefs_param(t, ai):
                             out.add(f2)
+                            sites.setdefault(f2, []).append(i)
                 continue
             if fl is not None and fl not in tested:
                 out.add(fl)
+                sites.setdefault(fl, []).append(i)
         # one level of forwarding: h hands its object on to a function that needs the member
         for c in h.calls():
             if not c.callee:
@@ -147,6 +156,7 @@ class NullOk:
                     k = _param_index(h, c.ops[k2])
                     if k is not None and (k, fld) not in tested:
                         out.add((k, fld))
+                        sites.setdefault((k, fld), []).append(c)
         self._N[h] = out
         return out
 
@@ -337,6 +347,13 @@ def run_nullok(chk, prog, rule, scope, done=None):
                                 continue
                             for (k2, fld2) in eng.needs(h):
                                 if fld2 == fld and k2 < len(i.ops) and strip_casts(i.ops[k2]) is obj:
+                                    # arguments that are known to be 0 here can keep the helper away from the member
+                                    zp = {j for j, a in enumerate(i.ops) if _is_zero_member(a, zero_objs)}
+                                    if zp:
+                                        live = _reach_with_zero_params(h, zp)
+                                        ss = getattr(eng, "_Nsites", {}).get(h, {}).get((k2, fld2), [])
+                                        if ss and not any(x.bb in live for x in ss):
+                                            continue
                                     bad = (i, h)
                                     break
                         if bad is not None:
@@ -435,3 +452,64 @@ def _feasible_succs(b, zero_objs):
     if val is None:
         return list(b.succs)
     return [t.x["succ"][0] if val else t.x["succ"][1]]
+
+
+def _is_zero_member(v, zero_objs):
+    while v.is_inst and v.op in ("zext", "sext", "trunc"):
+        v = v.ops[0]
+    if not (v.is_inst and v.op == "load"):
+        return False
+    q = strip_casts(v.ops[0])
+    if not (q.is_inst and q.op == "getelementptr" and q.field()):
+        return False
+    ms = zero_objs.get(id(strip_casts(q.ops[0])))
+    return bool(ms) and ("*" in ms or q.field()[1] in ms)
+
+
+def _reach_with_zero_params(h, zero_params):
+    """blocks of h that can run when the listed parameters are 0 (branches on them, directly or through the phi of a loop
+    head on the way in, are followed on the side 0 takes)"""
+    h.build()
+    pars = {id(h.params[j]) for j in zero_params if j < len(h.params)}
+
+    def val(v, pred):
+        for _ in range(6):
+            while v.is_inst and v.op in ("zext", "sext", "trunc"):
+                v = v.ops[0]
+            if id(v) in pars:
+                return 0
+            if v.is_const and v.is_int:
+                return v.sval
+            if v.is_inst and v.op == "phi" and pred is not None:
+                nv = None
+                for x, pb in zip(v.ops, v.x["inc"]):
+                    if pb is pred:
+                        nv = x
+                if nv is None:
+                    return None
+                v, pred = nv, None
+                continue
+            return None
+        return None
+    live, work = set(), [(h.blocks[0], None)]
+    seen = set()
+    while work:
+        b, pred = work.pop()
+        if (b, pred) in seen:
+            continue
+        seen.add((b, pred))
+        live.add(b)
+        t = b.term
+        nxt = list(b.succs)
+        if t.op == "br" and len(t.x["succ"]) == 2 and t.ops[0].is_inst and t.ops[0].op == "icmp":
+            c = t.ops[0]
+            a, d = val(c.ops[0], pred if c.ops[0].is_inst and c.ops[0].op == "phi" and c.ops[0].bb is b else None), \
+                val(c.ops[1], pred if c.ops[1].is_inst and c.ops[1].op == "phi" and c.ops[1].bb is b else None)
+            if a is not None and d is not None:
+                r = {"eq": a == d, "ne": a != d, "ult": a < d, "ule": a <= d, "ugt": a > d, "uge": a >= d,
+                     "slt": a < d, "sle": a <= d, "sgt": a > d, "sge": a >= d}.get(c.pred)
+                if r is not None and a >= 0 and d >= 0:
+                    nxt = [t.x["succ"][0] if r else t.x["succ"][1]]
+        for s_ in nxt:
+            work.append((s_, b))
+    return live
